@@ -110,7 +110,8 @@ def identical(a, b):
         # a snapshot taken for old(...) stands for the object it was copied from
         a0 = getattr(a, 'origin', None) or a
         b0 = getattr(b, 'origin', None) or b
-        if a0 is not b0 and getattr(a0, 'tag', None) == 'symlist-element' and getattr(b0, 'tag', None) == 'symlist-element':
+        _vt = ('symlist-element', 'symlist-element-part')
+        if a0 is not b0 and getattr(a0, 'tag', None) in _vt and getattr(b0, 'tag', None) in _vt:
             from .explore import Unsupported
             raise Unsupported("identity of two elements of a list of symbolic length")
         return a0 is b0
